@@ -1,1 +1,430 @@
-fn main(){}
+//! C07 -- constant-time signature comparison, decided on instruction-address traces.
+//!
+//! cttrace C07 [--tier quick|thorough] [--replay FILE]
+//!
+//! The process defines its own byte-wise, early-exit memcmp/bcmp (so that a `==` on byte strings is
+//! position dependent whatever the C library's vector width), warms every code path up, and then
+//! forks tracer processes; each tracer forks one tracee per variant and single-steps the complete
+//! `sigv4_validate_request` call with ptrace, folding every instruction address into a hash.
+//! All tracees are forks of one warmed-up image (same address-space layout, same allocator state,
+//! same hash-map seeds), so for a fixed request and key the traces of two wrong signatures can
+//! differ only if control flow depends on *where* the signature is wrong.
+
+use proptest::strategy::{Strategy, ValueTree};
+use proptest::test_runner::{Config, RngSeed, TestRunner};
+use serde_json::json;
+use std::io::Read;
+use vh::engine::{mix, CaseCtx, Ctx, Failure, Tier};
+use vh::gen::{plan, quiet_opts, Plan};
+use vh::model::verify::{analyze, Verdict, R_SIGNATURE};
+use vh::props::c01::replace_signature;
+use vh::types::*;
+use vh::{exec, model};
+
+#[no_mangle]
+pub unsafe extern "C" fn memcmp(a: *const u8, b: *const u8, n: usize) -> i32 {
+    let mut i = 0;
+    while i < n {
+        let x = std::ptr::read_volatile(a.add(i));
+        let y = std::ptr::read_volatile(b.add(i));
+        if x != y {
+            return x as i32 - y as i32;
+        }
+        i += 1;
+    }
+    0
+}
+
+#[no_mangle]
+pub unsafe extern "C" fn bcmp(a: *const u8, b: *const u8, n: usize) -> i32 {
+    let mut i = 0;
+    while i < n {
+        let x = std::ptr::read_volatile(a.add(i));
+        let y = std::ptr::read_volatile(b.add(i));
+        if x != y {
+            return 1;
+        }
+        i += 1;
+    }
+    0
+}
+
+const RULE: &str = "generated: (request, key) pairs from the completeness generator (small requests, both carriers); for each, the expected signature (reference model) with ONE character at position p replaced by another of the same class (digit->digit, letter->letter), and 'everything from p on wrong' variants. Observed: the instruction-address trace (rolling hash + step count) of the complete sigv4_validate_request call in a forked child single-stepped with ptrace, under a harness-supplied byte-wise early-exit memcmp/bcmp. Oracle (metamorphic): for a fixed request and key the trace is identical for every p; the first variant is traced twice and a difference there makes the run inconclusive, never a violation. Non-trivial: a variant that the crate refuses with the signature-mismatch error (it reached the comparison) and whose trace was recorded; distinct by (request digest, position, tail flag).";
+
+#[derive(Clone, Copy, Default)]
+struct TraceResult {
+    hash: u64,
+    steps: u64,
+    ok: bool,
+}
+
+fn wrong_char(c: u8) -> u8 {
+    match c {
+        b'0'..=b'8' => c + 1,
+        b'9' => b'0',
+        b'a'..=b'e' => c + 1,
+        b'f' => b'a',
+        other => other,
+    }
+}
+
+/// the signature with position p (and, for `tail`, everything after it) made wrong
+fn variant_sig(sig: &str, p: usize, tail: bool) -> String {
+    let mut b = sig.as_bytes().to_vec();
+    for i in p..b.len() {
+        if i == p || tail {
+            b[i] = wrong_char(b[i]);
+        }
+    }
+    String::from_utf8(b).unwrap()
+}
+
+struct Target {
+    case: Case,
+    sig: String,
+}
+
+/// Trace one validation in a forked child. Uses no heap in the parent.
+unsafe fn trace_one(t: &Target, p: usize, tail: bool, max_steps: u64, block_step: bool) -> TraceResult {
+    let pid = libc::fork();
+    if pid < 0 {
+        return TraceResult::default();
+    }
+    if pid == 0 {
+        // ---- tracee
+        libc::ptrace(libc::PTRACE_TRACEME, 0, 0, 0);
+        let mut case = t.case.clone();
+        let ns = variant_sig(&t.sig, p, tail);
+        if !replace_signature(&mut case.req, &t.sig, &ns) {
+            libc::_exit(3);
+        }
+        let http_req = match exec::build_http(&case.req) {
+            Ok(r) => r,
+            Err(_) => libc::_exit(4),
+        };
+        let mut prov = exec::Prov::new(case.prov.clone());
+        let now = exec::to_datetime(case.cfg.now).unwrap();
+        let opts = scratchstack_aws_signature::SignatureOptions { s3: case.cfg.s3, url_encode_form: case.cfg.fold };
+        libc::raise(libc::SIGSTOP);
+        let (r, _) = exec::block_on(
+            scratchstack_aws_signature::sigv4_validate_request(http_req, &case.cfg.region, &case.cfg.service, &mut prov, now, &scratchstack_aws_signature::NO_ADDITIONAL_SIGNED_HEADERS, opts),
+            1000,
+        );
+        libc::raise(libc::SIGSTOP);
+        // exit code tells the tracer what happened: 10 = refused with SignatureDoesNotMatch, 11 = accepted, 12 = other
+        let code = match r {
+            Some(Err(e)) => match e.downcast_ref::<scratchstack_aws_signature::SignatureError>() {
+                Some(scratchstack_aws_signature::SignatureError::SignatureDoesNotMatch(_)) => 10,
+                _ => 12,
+            },
+            Some(Ok(_)) => 11,
+            None => 13,
+        };
+        libc::_exit(code);
+    }
+    // ---- tracer
+    let mut status: libc::c_int = 0;
+    if libc::waitpid(pid, &mut status, 0) < 0 || !libc::WIFSTOPPED(status) {
+        return TraceResult::default();
+    }
+    let mut hash: u64 = 0xcbf29ce484222325;
+    let mut steps: u64 = 0;
+    let mut regs: libc::user_regs_struct = std::mem::zeroed();
+    let mut reached_end = false;
+    loop {
+        let req = if block_step { 33 } else { libc::PTRACE_SINGLESTEP };
+        if libc::ptrace(req, pid, 0, 0) < 0 {
+            break;
+        }
+        if libc::waitpid(pid, &mut status, 0) < 0 {
+            break;
+        }
+        if libc::WIFEXITED(status) || libc::WIFSIGNALED(status) {
+            return TraceResult::default();
+        }
+        if libc::WIFSTOPPED(status) {
+            let sig = libc::WSTOPSIG(status);
+            if sig == libc::SIGSTOP {
+                reached_end = true;
+                break;
+            }
+            if sig != libc::SIGTRAP {
+                // deliver nothing; unexpected signal
+                break;
+            }
+        }
+        if libc::ptrace(libc::PTRACE_GETREGS, pid, 0, &mut regs as *mut _ as *mut libc::c_void) < 0 {
+            break;
+        }
+        hash = (hash ^ regs.rip).wrapping_mul(0x100000001b3);
+        steps += 1;
+        if steps > max_steps {
+            break;
+        }
+    }
+    let mut ok = false;
+    if reached_end {
+        // let it run to its exit to learn the verdict
+        libc::ptrace(libc::PTRACE_CONT, pid, 0, 0);
+        if libc::waitpid(pid, &mut status, 0) >= 0 && libc::WIFEXITED(status) {
+            ok = libc::WEXITSTATUS(status) == 10;
+        }
+    } else {
+        libc::kill(pid, libc::SIGKILL);
+        libc::waitpid(pid, &mut status, 0);
+    }
+    TraceResult { hash, steps, ok: ok && reached_end }
+}
+
+fn targets(seed: u64, n: usize) -> Vec<(Plan, Target)> {
+    let mut runner = TestRunner::new(Config { rng_seed: RngSeed::Fixed(mix(seed, "c07-targets", 0)), failure_persistence: None, ..Config::default() });
+    let st = plan(quiet_opts());
+    let mut out: Vec<(Plan, Target)> = Vec::new();
+    let mut guard = 0;
+    while out.len() < n && guard < 10_000 {
+        guard += 1;
+        let p = st.new_tree(&mut runner).unwrap().current();
+        // alternate carriers
+        let want_query = out.len() % 2 == 1;
+        if (p.spec.carrier == vh::model::verify::Carrier::Query) != want_query {
+            continue;
+        }
+        let Ok(b) = p.build() else { continue };
+        let a = analyze(&b.case);
+        if !a.verdict().is_accept() {
+            continue;
+        }
+        // the crate must accept the correct signature, otherwise wrong ones do not reach the comparison meaningfully
+        if !exec::run(&b.case).res.is_ok() {
+            continue;
+        }
+        out.push((p, Target { case: b.case.clone(), sig: b.signed.signature.clone() }));
+    }
+    out
+}
+
+fn main() {
+    let args: Vec<String> = std::env::args().collect();
+    let mut tier = match std::env::var("VERIF_TIER").as_deref() {
+        Ok("thorough") => Tier::Thorough,
+        _ => Tier::Quick,
+    };
+    let mut replay: Option<String> = None;
+    let mut i = 2;
+    while i < args.len() {
+        match args[i].as_str() {
+            "--tier" => {
+                i += 1;
+                tier = if args.get(i).map(|s| s.as_str()) == Some("thorough") { Tier::Thorough } else { Tier::Quick };
+            }
+            "--replay" => {
+                i += 1;
+                replay = args.get(i).cloned();
+            }
+            _ => {}
+        }
+        i += 1;
+    }
+    let seed: u64 = std::env::var("VERIF_SEED").ok().and_then(|s| s.parse::<i64>().ok()).map(|v| v as u64).unwrap_or(0);
+    if let Err(e) = model::crypto::self_test().and_then(|_| model::time::self_test()).and_then(|_| model::selftest::self_test().map(|_| ())) {
+        eprintln!("INCONCLUSIVE: {}", e);
+        std::process::exit(2);
+    }
+    exec::install_quiet_panic_hook();
+    let ctx = Ctx::new("C07", tier, seed, false);
+    ctx.set_rule(RULE);
+    ctx.assume("control-flow independence is decided on instruction-address traces of this build on this CPU; data-dependent instruction latency and caches are out of scope");
+    ctx.assume("the harness-supplied byte-wise memcmp/bcmp replaces the C library's for the whole process");
+    for a in vh::props::COMMON_ASSUMPTIONS {
+        ctx.assume(a);
+    }
+
+    // ---- what to trace
+    let (tg, positions, tails): (Vec<(Plan, Target)>, Vec<usize>, Vec<usize>) = if let Some(file) = &replay {
+        let text = std::fs::read_to_string(file).unwrap_or_default();
+        let v: serde_json::Value = serde_json::from_str(&text).unwrap_or(serde_json::Value::Null);
+        let p: Plan = match serde_json::from_value(v["case"]["plan"].clone()) {
+            Ok(p) => p,
+            Err(e) => {
+                eprintln!("cannot decode replay file: {}", e);
+                std::process::exit(2);
+            }
+        };
+        let b = p.build().expect("replay plan builds");
+        (vec![(p, Target { case: b.case.clone(), sig: b.signed.signature.clone() })], (0..64).collect(), vec![])
+    } else {
+        let n = tier.pick(2, 6) as usize;
+        let pos: Vec<usize> = if tier == Tier::Thorough { (0..64).collect() } else { (0..64).step_by(4).chain(std::iter::once(63)).collect() };
+        let tails: Vec<usize> = if tier == Tier::Thorough { vec![0, 1, 16, 32, 48, 62] } else { vec![0, 32] };
+        (targets(seed, n), pos, tails)
+    };
+    if tg.is_empty() {
+        eprintln!("INCONCLUSIVE: no traceable request was generated");
+        std::process::exit(2);
+    }
+
+    // variants: (target, position, tail)
+    let mut variants: Vec<(usize, usize, bool)> = Vec::new();
+    for t in 0..tg.len() {
+        // baseline twice
+        variants.push((t, positions[0], false));
+        variants.push((t, positions[0], false));
+        for &p in positions.iter().skip(1) {
+            variants.push((t, p, false));
+        }
+        for &p in &tails {
+            variants.push((t, p, true));
+        }
+    }
+
+    // ---- warm-up in the parent image: every lazily initialised global, both accept and refuse paths
+    for (_, t) in &tg {
+        let _ = exec::run(&t.case);
+        let mut c = t.case.clone();
+        let ns = variant_sig(&t.sig, 5, false);
+        replace_signature(&mut c.req, &t.sig, &ns);
+        let _ = exec::run(&c);
+        let _ = exec::run(&c);
+    }
+
+    // ---- tracer processes. Everything they need is allocated BEFORE the first fork and nothing is
+    // allocated between forks, so every tracer (and therefore every tracee) starts from the same image.
+    let workers = ctx.threads.min(variants.len()).max(1);
+    let max_steps: u64 = 5_000_000;
+    let block_step = std::env::var("VERIF_C07_BLOCKSTEP").map(|v| v == "1").unwrap_or(false);
+    let mut fds: Vec<[libc::c_int; 2]> = vec![[0, 0]; workers];
+    let mut pids: Vec<libc::pid_t> = vec![0; workers];
+    let mut table: Vec<TraceResult> = vec![TraceResult::default(); variants.len()];
+    for w in 0..workers {
+        if unsafe { libc::pipe(fds[w].as_mut_ptr()) } != 0 {
+            eprintln!("INCONCLUSIVE: pipe failed");
+            std::process::exit(2);
+        }
+    }
+    for w in 0..workers {
+        unsafe {
+            let pid = libc::fork();
+            if pid == 0 {
+                let mut vi = w;
+                while vi < variants.len() {
+                    let (t, p, tail) = variants[vi];
+                    table[vi] = trace_one(&tg[t].1, p, tail, max_steps, block_step);
+                    vi += workers;
+                }
+                let mut out = String::new();
+                let mut vi = w;
+                while vi < variants.len() {
+                    out.push_str(&format!("{} {} {} {}\n", vi, table[vi].hash, table[vi].steps, table[vi].ok as u8));
+                    vi += workers;
+                }
+                let b = out.as_bytes();
+                let mut off = 0;
+                while off < b.len() {
+                    let n = libc::write(fds[w][1], b[off..].as_ptr() as *const libc::c_void, b.len() - off);
+                    if n <= 0 {
+                        break;
+                    }
+                    off += n as usize;
+                }
+                libc::_exit(0);
+            }
+            pids[w] = pid;
+        }
+    }
+    let mut pipes: Vec<(libc::pid_t, std::fs::File)> = Vec::new();
+    for w in 0..workers {
+        unsafe {
+            libc::close(fds[w][1]);
+            use std::os::unix::io::FromRawFd;
+            pipes.push((pids[w], std::fs::File::from_raw_fd(fds[w][0])));
+        }
+    }
+    let mut results: Vec<Option<TraceResult>> = vec![None; variants.len()];
+    for (pid, mut f) in pipes {
+        let mut s = String::new();
+        let _ = f.read_to_string(&mut s);
+        unsafe {
+            let mut st = 0;
+            libc::waitpid(pid, &mut st, 0);
+        }
+        for line in s.lines() {
+            let f: Vec<&str> = line.split(' ').collect();
+            if f.len() == 4 {
+                if let (Ok(vi), Ok(h), Ok(n)) = (f[0].parse::<usize>(), f[1].parse::<u64>(), f[2].parse::<u64>()) {
+                    results[vi] = Some(TraceResult { hash: h, steps: n, ok: f[3] == "1" });
+                }
+            }
+        }
+    }
+
+    // ---- oracle
+    let mut samples_left = 6;
+    for t in 0..tg.len() {
+        let idx: Vec<usize> = (0..variants.len()).filter(|i| variants[*i].0 == t).collect();
+        let (b0, b1) = (results[idx[0]], results[idx[1]]);
+        let digest = tg[t].1.case.req.digest();
+        match (b0, b1) {
+            (Some(x), Some(y)) if x.ok && y.ok && x.hash == y.hash && x.steps == y.steps => {}
+            (x, y) => {
+                ctx.inconclusive.lock().unwrap().push(format!(
+                    "request {}: the same variant traced twice gave {:?} and {:?} (steps, refused-with-mismatch); trace baseline is not reproducible",
+                    t,
+                    x.map(|r| (r.steps, r.ok)),
+                    y.map(|r| (r.steps, r.ok))
+                ));
+                continue;
+            }
+        }
+        let base = b0.unwrap();
+        for &vi in idx.iter().skip(1) {
+            let (_, p, tail) = variants[vi];
+            let mut cc = CaseCtx::default();
+            match results[vi] {
+                Some(r) if r.ok => {
+                    cc.class(if tail { "tail-wrong" } else { "one-char-wrong" });
+                    cc.nontrivial(mix(digest, if tail { "tail" } else { "one" }, p as u64));
+                    if samples_left > 0 {
+                        samples_left -= 1;
+                        cc.sample(json!({"request": format!("{} {}", tg[t].1.case.req.method, tg[t].1.case.req.uri), "carrier": format!("{:?}", tg[t].0.spec.carrier), "first_wrong_position": p, "rest_wrong_too": tail,
+                            "steps": r.steps, "trace_hash": format!("{:016x}", r.hash), "baseline_steps": base.steps}));
+                    }
+                    ctx.record("trace", cc);
+                    if r.hash != base.hash || r.steps != base.steps {
+                        let f = Failure::new(
+                            "trace-depends-on-position",
+                            format!(
+                                "request {} ({:?} carrier): refusing a signature first wrong at position {}{} executed {} instructions (trace {:016x}); first wrong at position {} executed {} (trace {:016x})",
+                                t,
+                                tg[t].0.spec.carrier,
+                                p,
+                                if tail { " (rest wrong too)" } else { "" },
+                                r.steps,
+                                r.hash,
+                                positions[0],
+                                base.steps,
+                                base.hash
+                            ),
+                        );
+                        ctx.violation("trace", &json!({"plan": tg[t].0, "position": p, "tail": tail}), &f);
+                        break;
+                    }
+                }
+                other => {
+                    ctx.inconclusive.lock().unwrap().push(format!("request {} position {}: trace not obtained ({:?})", t, p, other.map(|r| (r.steps, r.ok))));
+                }
+            }
+        }
+    }
+    // the model agrees these variants are decided by the signature comparison
+    for (p, t) in &tg {
+        let mut c = t.case.clone();
+        replace_signature(&mut c.req, &t.sig, &variant_sig(&t.sig, 7, false));
+        match analyze(&c).verdict() {
+            Verdict::Reject { rank, .. } if *rank == R_SIGNATURE => {}
+            other => ctx.inconclusive.lock().unwrap().push(format!("model does not place the refusal at the signature rule: {} ({:?})", other.short(), p.spec.carrier)),
+        }
+    }
+    ctx.extra("traced_requests", json!(tg.len()));
+    ctx.extra("positions", json!(positions));
+    std::process::exit(ctx.finish());
+}
